@@ -113,9 +113,9 @@ def run_scene(case, frame):
     shared = (MC.critical_cfg(mgr, CRIT[case["crit"]]), MC.passfail_cfg(mgr, PF[case["pf"]])) if case.get("shared_cfg") else None
     for fr in case["frames"]:
         if case.get("derived_frames") and prev is not None:
-            gt = MC.make_gt_frame(dict(fr, _prev_gt_frame=prev), frame, tf_mode="derived")
+            gt = MC.make_gt_frame(dict(fr, _prev_gt_frame=prev), frame, name=fr.get("name"), tf_mode="derived")
         else:
-            gt = MC.make_gt_frame(fr, frame, tf_mode=case.get("ego_tf", "pose"))
+            gt = MC.make_gt_frame(fr, frame, name=fr.get("name"), tf_mode=case.get("ego_tf", "pose"))
         prev = gt
         ests = MC.make_estimates(fr, frame)
         cc, pc = shared if shared is not None else (MC.critical_cfg(mgr, CRIT[case["crit"]]), MC.passfail_cfg(mgr, PF[case["pf"]]))
@@ -237,6 +237,23 @@ class RenderingCorr(Corr):
                 jitter(frames)
             if ci % 8 == 7:
                 straddle(frames, rng)
+            if ci % 8 not in (5, 7) and rng.random() < 0.5:
+                # objects well above / below the ego vehicle whose PLANAR distance is inside a range bound that their 3-D distance is outside
+                # of (35.03 m: planar 34.625, z 7; 3.03 m: planar 2.875, z 2): range filtering is by the planar distance in both renderings
+                for fr in frames:
+                    if fr["gts"]:
+                        g = fr["gts"][0]
+                        x, y, z = rng.choice([(34.625, 0.0, 7.0), (0.0, -34.625, -7.0), (-34.625, 0.0, 7.0), (2.875, 0.0, 2.0), (0.0, 2.875, -2.0)])
+                        dx, dy = g["pos"][0] - x, g["pos"][1] - y
+                        g["pos"] = [x, y, z]
+                        for e in fr["ests"]:
+                            if e["uuid"] == "t" + g["uuid"][1:]:
+                                e["pos"] = [e["pos"][0] - dx, e["pos"][1] - dy, z]
+            if ci % 8 == 6:
+                # every frame of the scene carries the SAME name (as the first frames of several datasets do, or interpolated frames):
+                # nothing may be remembered per frame name across frames with other ego poses
+                for fr in frames:
+                    fr["name"] = "0"
             far = ci % 8 == 3
             if far:      # map coordinates of the size real maps have (1e4 .. 1e5 m), still on the k/8 lattice
                 for fr in frames:
